@@ -28,6 +28,14 @@ EXPLANATION = ("Every site that applies a length threshold is a function under c
                "the spec function cat(L) taken from the property statement; the obligations are generated from the real AST.")
 
 
+def bounded(tier, seed, fallback_for):
+    from pyvc import driver
+    return [driver.run_harness(ID, "h_fs.py", [ID, tier, str(seed)], "check-command:" + ID,
+                               "8 files holding one function of length 15,16,30,31,60,61,90,31 and 3 directories; check given every single path, "
+                               "every 2nd ordered pair (thorough: all), 20 random 3..5-path lists (thorough 300), each with and without --quiet",
+                               "exit status, listed functions, summary count and silence compared with values computed from the known lengths")]
+
+
 def lemmas(eng):
     """C02-agree: the spec function itself partitions the integers as the statement says (sanity of the spec)."""
     from pyvc.engine import Obligation
